@@ -1823,6 +1823,12 @@ Proof.
   eapply Forall_impl; [|exact IH2]. cbv beta. intros a [Ha Hb]. lia.
 Qed.
 
+Lemma read_token_version_line X :
+  read_token (s_version_line ++ X) = Ok (T_IDENT, s_version_line ++ X, 61 :: 32 :: 49 :: 10 :: X).
+Proof. vm_compute. reflexivity. Qed.
+Lemma parse_version_line X : parse_version (s_version_line ++ X) = Ok X.
+Proof. vm_compute. reflexivity. Qed.
+
 (** printing a well-formed statement list and parsing it back gives the list *)
 Theorem C11_parse_print_gen_proof : forall chk stmts,
   Forall (fun st => wf_stmt st = true) stmts -> chk_passes chk [] stmts ->
@@ -1833,11 +1839,8 @@ Proof.
   set (X := print_body stmts ++ [0]).
   set (n := length (s_version_line ++ X)).
   cbn [parse_loop].
-  replace (read_token (s_version_line ++ X))
-    with (Ok (T_IDENT, s_version_line ++ X, 61 :: 32 :: 49 :: 10 :: X)) by reflexivity.
-  cbv beta iota.
-  replace (parse_version (s_version_line ++ X)) with (Ok X) by reflexivity.
-  cbv beta iota. subst X.
+  rewrite read_token_version_line. cbv beta iota.
+  rewrite parse_version_line. cbv beta iota. subst X.
   destruct (print_body_length stmts) as [L1 L2].
   assert (Hlen : (length (print_body stmts) < n)%nat).
   { subst n. rewrite !app_length. cbn [length]. lia. }
